@@ -111,6 +111,7 @@ def run(run):
     tile_p, lat_s, lon_s = (("sym", p) for p in sc.params()[:3])
     posx, posy, posn = (("attr", ("attr", tile_p, "pos"), a) for a in ("x", "y", "n"))
     ranges = {}
+    range_list = []
     for pc, t, n in rs.returns:
         if num_value(t) != 0:
             continue
@@ -135,8 +136,13 @@ def run(run):
                     yy = num_value(b if a == posy else a)
         if None not in (lo, hi, xx, yy):
             ranges[(int(xx), int(yy))] = (lo, hi)
+            range_list.append((int(xx), int(yy), lo, hi))
     name, rows, node = level1_table(project)
-    if len(ranges) != 4 or not rows:
+    if len(range_list) == 4 and len(ranges) < 4:
+        dup = [k for k in ranges if sum(1 for r_ in range_list if (r_[0], r_[1]) == k) > 1]
+        run.violated("C12.R3", sc, None, "two level-1 longitude ranges select the same tile position %s and another position is never selected: points in "
+                     "that quadrant get the wrong level-1 tile" % dup, kind="level1-range-table")
+    elif len(ranges) != 4 or not rows:
         run.undecided("C12.R3", sc, None, "cannot extract the four level-1 longitude ranges (%d found)" % len(ranges), kind="level1-ranges")
     else:
         bad = []
